@@ -107,21 +107,25 @@ CHECKS = {
         note='Process kill, not power loss. Effects are interposed via module attributes of slimta.diskstorage. ' + TB),
     'C07': dict(
         level='model_checking',
-        text='SmtpServer.tla is the complete finite graph of server.py over command variants (well-formed, malformed, bare) x '
-             'validator verdicts; TLC checks order / no-callback-on-error / reset / close on every edge. Real sessions (every '
+        text='SmtpServer.tla is the complete finite graph of server.py over command variants (well-formed, malformed, bare; STARTTLS '
+             'with handshake done/failed and pipelined bytes; AUTH with plain-text or challenge mechanisms) x validator verdicts, '
+             'with and without the extensions configured; TLC checks order / no-callback-on-error / reset / close / errors-do-not-close on every edge. Real sessions (every '
              'command sequence to a depth after five prefixes, every verdict assignment of a transaction skeleton, random long '
              'sessions) through the real Server with the real edge SmtpSession are validated by TLC against the observer, '
              'which reconstructs protocol state from the replies only and also judges the envelope handed to the queue.',
         design='5/C07', technique='TLA+ finite server graph (TLC complete) + TLC trace validation of real sessions',
-        note='Commands one at a time over an in-memory socket; STARTTLS/AUTH in C08; segmentation in C09. ' + TB),
+        note='Commands one at a time over an in-memory socket; sessions with AUTH configured included; a completed STARTTLS needs a real socket (C08); segmentation in C09. ' + TB),
     'C09': dict(
         level='model_checking',
         text='The framing automaton (DataFraming, shared with C05) is checked exhaustively by TLC; each generated session byte '
              'stream is delivered unit-by-unit (judged by the C07 observer: content handed over equals content sent, one reply '
              'per unit), byte-by-byte, in one burst, randomly cut and cut around every unit boundary, and TLC requires the '
-             'reply sequence and the callback/hand-off sequence of all deliveries of a stream to be equal.',
+             'reply sequence and the callback/hand-off sequence of all deliveries of a stream to be equal. MC_SizeLimit proves for every '
+             'message, trailer and segmentation to the bound that the too-big verdict is a function of the message and that a '
+             'refused message is consumed to its end-of-data line; the real DataReader with max_size is validated against it on '
+             'every small message x limit x segmentation.',
         design='5/C09', technique='TLA+ framing automaton + TLC metamorphic bundle validation across segmentations of real sessions',
-        note='Known finding D15 (size limit verdict depends on segmentation). ' + TB),
+        note='The SIZE limit (D15, repaired) has its own design model MC_SizeLimit and conformance driver c09z; the over-limit bundles of the session driver are a fixed list. ' + TB),
     'C11': dict(
         level='model_checking',
         text='RelayObs (TLA+) reconstructs from the scripted downstream what was positively accepted and which failure events '
@@ -165,8 +169,9 @@ CHECKS = {
         text='The STARTTLS / AUTH matrices of the statement are finite and enumerated completely against the real Server and '
              'edge session over real TLS (socketpair + self-signed certificate), and the real Client against a peer injecting '
              'replies in clear; TLC validates every execution against the TLS/AUTH observer (no crossing, fresh after TLS, AUTH '
-             'gate, malformed AUTH, authenticated only on 235, credentials exact). The TLS layer itself is the real library and '
-             'is not modelled, so the claim is exploration of the stated matrix, not a model-checked design.',
+             'gate, malformed AUTH, authenticated only on 235, credentials exact). The command-level design (fresh after TLS, no '
+             'crossing, AUTH gate, authenticated only on 235) is model-checked on SmtpServer.tla with four deviation switches, but the '
+             'TLS layer itself is the real library and is not modelled, so the claim stays exploration of the stated matrix.',
         design='5/C08 and 8', technique='exhaustive protocol-prefix x injection and AUTH matrices on real TLS, TLC trace validation against a TLA+ observer',
         note='Known finding D27 (plain-text mechanisms accepted without TLS with the installed pysasl). ' + TB),
     'C06': dict(
